@@ -48,6 +48,21 @@ Theorem C15_generated_add_is_append : forall (s : sst) (rows : table) (sync : bo
   sadd_flow_run gen_sadd_flow gen_ssave_flow s rows sync = sstep s (SAdd rows sync).
 Proof. intros. rewrite bridge_sadd_flow, bridge_ssave_flow. apply sadd_flow_is_sstep. Qed.
 
+(* a run whose table write fails appends nothing anywhere: the file keeps its rows and memory holds what the
+   file holds (over the REGENERATED flow of add_df / save_full_df) *)
+Theorem C15_failed_write_appends_nothing : forall (s : sst) (rows : table),
+  let s' := sadd_wfail_run gen_sadd_flow gen_ssave_flow s rows in
+  s_file s' = s_file s /\ s_mem s' = match s_file s with Some t => Some t | None => s_mem s end.
+Proof.
+  intros s rows. cbn zeta. rewrite bridge_sadd_flow, bridge_ssave_flow, sadd_wfail_is_sstep. cbn. split; reflexivity.
+Qed.
+
+(* sensitivity: were memory updated before the write, a failed first run would leave its rows in memory *)
+Lemma C15_mem_before_write_refuted :
+  s_mem (sadd_wfail_run model_sadd_flow (mk_save_flow MemBeforeWrite RrAlways true) (mk_sst None None) [[1; 10]])
+  = Some [[1; 10]].
+Proof. vm_compute. reflexivity. Qed.
+
 Theorem C15_code_tie : gen_sadd_flow = model_sadd_flow /\ gen_ssave_flow = model_save_flow /\ gen_sload_rule = model_load_rule
   /\ gen_label_flow = model_label_flow /\ gen_sampler_draw_is_transcribed = true.
 Proof. exact (conj bridge_sadd_flow (conj bridge_ssave_flow (conj bridge_sload_rule (conj bridge_label_flow bridge_sampler_draw)))). Qed.
@@ -70,4 +85,5 @@ Print Assumptions C15_new_session_continues.
 Print Assumptions C15_stale_memory_reloaded.
 Print Assumptions C15_rows_correct.
 Print Assumptions C15_generated_add_is_append.
+Print Assumptions C15_failed_write_appends_nothing.
 Print Assumptions C15_code_tie.
